@@ -53,6 +53,26 @@ TOOLING_MARKS = ("[timeout after", "[timeout]", "Killed", "out of memory", "Out 
                  "No space left on device", "Resource temporarily unavailable", "fork: retry")
 
 
+# what ONE probe evaluation calls (harness/c16_probes.h); the number of evaluations per class is in probe_evaluations_per_class
+CALL_FORMS = {
+    "ring classes (Modular*, ModularExtended, ModularBalanced, Montgomery, Modular<Log16>, GFqDom, GFqExtFast, GFqExt)":
+        "constants zero/one/mOne; characteristic(), characteristic(Integer&), characteristic(uint64_t&) [GFqExt*: (UTT&)], cardinality(), cardinality(Integer&), residu(), size(), "
+        "minElement(), maxElement(), [GFqExt*: bits(), base(), mask(), maxdot()]; init(E&), init(E&,Integer), init(E&,int64_t), init(E&,uint64_t), init(E&,double); convert(Integer&), "
+        "convert(int64_t&), convert(double&); isZero, isOne, isMOne, isUnit, areEqual; add, sub, mul, neg, div, inv (three-address); addin, subin, mulin, negin, divin, invin (in place); "
+        "axpy, axmy, maxpy, axpyin, axmyin, maxpyin; assign  -- 8 x 4 operand pairs per evaluation",
+    "GFq classes, in addition": "exponent(), generator(), generator(Rep&), sage_generator(), size(), residu(), irreducible(), zech2padic, padic2zech, init(Rep&, vector) below and above "
+        "the extension degree, prime-subfield arithmetic as integers; GFqExt*: init(E&,double)/convert(double&) on 6 values",
+    "Extension": "characteristic() x3 overloads, cardinality() x2, residu(), order(), exponent(), extension_type(), irreducible() x2, base_field(), polynomial_domain(), write; "
+        "init(Integer), mul, add, sub, inv, div, axpy, neg, convert(Integer&), isZero, isOne, isMOne, isUnit, areEqual on 8 operand triples",
+    "Poly1Dom / Poly1FactorDom": "init(Degree), init(Degree, coefficient), mul, mulin, add, addin, sub, divmod, mod, gcd, degree, leadcoef, diff, write, zero/one/mOne, isZero, isOne, "
+        "areEqual, getdomain() (+ its constants), getIndeter(); FactorDom: is_irreducible on 7 polynomials",
+    "IntRNSsystem / RNSsystem": "NumOfPrimes()/size(), product(), RingToRns, RnsToRing, RnsToMixedRadix, MixedRadixToRing on 6 integers, Reciprocals(), reciprocal(i), Primes(), ith(i); "
+        "RNSsystem::setPrimes as mutator",
+    "special members (events)": "every constructor overload (constructor_overloads), copy constructor, operator= (incl. self-assignment), destructor, in-place mutators "
+        "read(istream&) / setPrimes",
+}
+
+
 def iso_ok(cls, q):
     return cls not in NON_ISO or (q >> 2) in DET_VARIANTS.get(cls, ())
 
@@ -318,7 +338,14 @@ def gen_mut_histories(rng, tier):
     return out
 
 
-def gen_histories(rng, tier):
+# thorough tier: the complete enumeration of short histories is run on one instantiation per family of the Modular_implem template
+# (integral / floating / Integer / ruint storage share the special members textually); the other instantiations get the directed and
+# the random histories only
+NO_EXHAUSTIVE = {"Modular<uint32_t>", "Modular<int64_t>", "Modular<uint64_t>", "Modular<float>", "Modular<int8_t>", "Modular<uint8_t>",
+                 "Modular<int16_t>", "Modular<uint16_t>"}
+
+
+def gen_histories(rng, tier, exhaustive=True):
     hs = []
     for pa, pb, pc, pd in ((0, 1, 2, 3), (1, 0, 3, 2)) + (((2, 3, 0, 1),) if tier != "quick" else ()):
         for h in DIRECTED:
@@ -335,7 +362,7 @@ def gen_histories(rng, tier):
             h.append(e)
             live = apply_event(live, e)
         hs.append(" ".join(h))
-    if tier != "quick":
+    if tier != "quick" and exhaustive:
         # exhaustive: every valid history of up to 5 events over 3 slots and 2 parameter sets
         def rec(live, h, depth):
             if h:
@@ -688,7 +715,9 @@ def run_histories(chk, rng, tier, classes=None):
     chk.cov["constructor_overload_names"] = VARIANT_NAMES
     # ---- histories
     hists = gen_histories(rng, tier)
-    want = [(c, h) for c in classes for h in hists]
+    hists_short = [h for h in gen_histories(vf.Rng(chk.seed + 1), tier, exhaustive=False)] if tier != "quick" else hists
+    want = [(c, h) for c in classes for h in (hists_short if c in NO_EXHAUSTIVE else hists)]
+    chk.cov["classes_without_exhaustive_enumeration"] = sorted(NO_EXHAUSTIVE & set(classes)) if tier != "quick" else []
     mh = gen_mut_histories(rng, tier)
     want += [(c, h) for c in classes if c in MUTABLE for h in mh]
     nct = {}
@@ -705,6 +734,7 @@ def run_histories(chk, rng, tier, classes=None):
     ncmp = nrun = 0
     per_class = {}
     forms = {}
+    cmp_class = {}
     for (c, h), line in zip(want, out):
         if line is None:
             continue
@@ -720,6 +750,7 @@ def run_histories(chk, rng, tier, classes=None):
         n = check_history(chk, c, h, steps, crash, iso)
         ncmp += n
         nrun += 1
+        cmp_class[c] = cmp_class.get(c, 0) + n
         per_class[c] = per_class.get(c, 0) + 1
         for t in h.split():
             if t[0] == "c":
@@ -738,6 +769,8 @@ def run_histories(chk, rng, tier, classes=None):
     chk.cov["histories_evaluated"] = nrun
     chk.cov["histories_evaluated_per_class"] = per_class
     chk.cov["construct_events_per_class_and_overload"] = forms
+    chk.cov["probe_evaluations_per_class"] = cmp_class          # every evaluation runs ALL call forms below on the object
+    chk.cov["call_forms_per_probe"] = CALL_FORMS
     chk.cov["classes_in_history_harness"] = len(classes)
     chk.cov["probe_comparisons"] = ncmp
     chk.cov["isolated_references"] = len(iso)
